@@ -321,6 +321,12 @@ def e2e_worker(job, acc: Acc):
     for batch in msgs:
         sent = []
         for ch in batch:
+            if ch.get("range") == "END":
+                # placed where the document ends *now* (after the changes before it, also those of the same message)
+                ls = refdoc.split_lines(text)
+                e = {"line": len(ls) - 1, "character": len(ls[-1])}
+                ch = {"range": {"start": e, "end": e}, "text": ch["text"]}
+                seq = [c if c.get("range") != "END" else ch for c in seq]
             if not incremental:
                 # whole-document sync: the client sends the full new text
                 text = refdoc.apply(text, ch)
@@ -393,7 +399,8 @@ def e2e_jobs(depth2: bool):
             yield (inc, 1, ch, None)
     if depth2:
         seconds = [_mk_change(((1, 0), (1, 0)), "\n"), _mk_change(((0, 0), (0, 0)), "! c\n"),
-                   _mk_change(((4, 0), (4, 0)), " "), _mk_change(((2, 0), (3, 0)), "")]
+                   _mk_change(((4, 0), (4, 0)), " "), _mk_change(((2, 0), (3, 0)), ""),
+                   {"range": "END", "text": "! tail"}, {"range": "END", "text": "! tail\n! more\n"}]
         for inc in (True, False):
             for per in (1, 2):
                 if not inc and per == 2:
@@ -424,7 +431,7 @@ def main(ctx):
     ctx.add_family("unit_nonbmp", nonbmp_family())
     hacc = core.pmap(history_case, history_jobs(4 if ctx.quick else 5), chunk=128, budget_s=60, label="C02/history")
     ctx.add_family("history", hacc, max_len=4 if ctx.quick else 5)
-    jobs = list(e2e_jobs(depth2=not ctx.quick))
+    jobs = list(e2e_jobs(depth2=True))
     e2e = core.pmap(e2e_worker, jobs, chunk=16, budget_s=60, label="C02/e2e")
     ctx.add_family("e2e_didchange", e2e)
     ctx.states = states
